@@ -171,8 +171,27 @@ class P:
             if self.at(";"):
                 self.eat(";")
             return ("return", e)
-        if v in ("for", "while", "loop"):
-            raise Untranslatable(f"loop `{v}` is outside the translated subset")
+        if v == "for":
+            self.eat()
+            pat = self.pat()
+            self.eat("in")
+            it = self.expr(nostruct=True)
+            body = self.block()
+            return ("for", pat, it, body)
+        if v == "while":
+            self.eat()
+            if self.at("let"):
+                raise Untranslatable("`while let`")
+            c = self.expr(nostruct=True)
+            body = self.block()
+            return ("while", c, body)
+        if v == "continue":
+            self.eat()
+            if self.at(";"):
+                self.eat(";")
+            return ("continue",)
+        if v in ("loop", "break"):
+            raise Untranslatable(f"`{v}` is outside the translated subset")
         e = self.expr(stmt=True)
         if self.at(";"):
             self.eat(";")
@@ -200,7 +219,7 @@ class P:
             elif v == close:
                 depth -= 1
 
-    BIN = {"||": 1, "&&": 2, "==": 3, "!=": 3, "<": 3, ">": 3, "<=": 3, ">=": 3, "+": 5, "-": 5, "*": 6, "/": 6, "%": 6}
+    BIN = {"..": 0.5, "||": 1, "&&": 2, "==": 3, "!=": 3, "<": 3, ">": 3, "<=": 3, ">=": 3, "+": 5, "-": 5, "*": 6, "/": 6, "%": 6}
 
     def expr(self, prec=0, nostruct=False, stmt=False):
         lhs = self.unary(nostruct)
@@ -211,7 +230,11 @@ class P:
             k, v = self.peek()
             if k == "id" and v == "as":
                 self.eat()
-                t = self.ty()
+                # the target of a cast is a plain type name here (f64, usize, i32, …)
+                t = self.eat()[1]
+                while self.at("::"):
+                    self.eat("::")
+                    t += "::" + self.eat()[1]
                 lhs = ("as", lhs, t)
                 continue
             p = self.BIN.get(v) if k == "op" else None
@@ -233,6 +256,7 @@ class P:
             self.eat()
             if self.at("mut"):
                 self.eat()
+                return ("mutref", self.unary(nostruct))
             return self.unary(nostruct)
         return self.postfix(self.primary(nostruct), nostruct)
 
@@ -562,6 +586,8 @@ class Lower:
         self.known = known_fns      # rust name (or Type::name) -> (lean name, [param types], ret type)
         self.consts = file_consts   # NAME -> Fraction
         self.fresh = 0
+        self.loop_state = []        # stack of (mutated variables, state tuple expression) of the enclosing loops
+        self.pushed = {}            # accumulator -> element type seen at its last push
 
     # ---- expressions: returns (lean string, type)
     def ex(self, e, env, want=None):
@@ -608,7 +634,12 @@ class Lower:
         if k == "as":
             s, t = self.ex(e[1], env)
             if e[2] == "f64" and t == "N":
-                raise Untranslatable("usize as f64")
+                # exact for every index that occurs (Float.ofNat n / Float.ofNat 1 at Float)
+                return f"(Scalar.ofRat {s} 1 : α)", "S"
+            if e[2] == "usize" and t == "S":
+                raise Untranslatable("f64 as usize")
+            if e[2] == "usize" and t == "N":
+                return s, t
             if e[2] == "f64" and t == "S":
                 return s, t
             raise Untranslatable(f"cast as {e[2]}")
@@ -640,6 +671,8 @@ class Lower:
                     proj = f"{proj}.1"
                 return proj, t[1][i]
             raise Untranslatable("tuple field of " + str(t))
+        if k == "mutref":
+            return self.ex(e[1], env, want)
         if k == "index":
             s, t = self.ex(e[1], env)
             i, ti = self.ex(e[2], env, "N")
@@ -784,8 +817,27 @@ class Lower:
                 return f"({t}.normSq {s})", "S"
             if m == "normalize" and not args:
                 return f"({t}.normalize {s})", t
-        if isinstance(t, tuple) and t[0] == "list" and m == "len" and not args:
-            return f"{s}.length", "N"
+        if isinstance(t, tuple) and t[0] == "list":
+            if m == "len" and not args:
+                return f"{s}.length", "N"
+            if m in ("iter", "to_vec") and not args:
+                return s, t
+            if m == "is_empty" and not args:
+                return f"{s}.isEmpty", "B"
+            if m == "skip" and len(args) == 1:
+                a, ta = self.ex(args[0], env, "N")
+                return f"({s}.drop {a})", t
+            if m == "last" and not args:
+                return f"{s}.getLast?", ("opt", t[1])
+            if m == "first" and not args:
+                return f"{s}.head?", ("opt", t[1])
+            if m == "zip" and len(args) == 1:
+                a, ta = self.ex(args[0], env)
+                if isinstance(ta, tuple) and ta[0] == "list":
+                    return f"({s}.zip {a})", ("list", ("tup", [t[1], ta[1]]))
+        if isinstance(t, tuple) and t[0] == "opt" and m == "unwrap" and not args and self.cfg.get("unwrap_default"):
+            # `unwrap` on an option the code's invariant makes `Some`: the model reads `default` otherwise
+            return f"({s}.getD default)", t[1]
         if isinstance(t, tuple) and t[0] == "st":
             rn = self.cfg.get('rust_names', {}).get(t[1], t[1])
             ext = self.cfg.get("extern", {}).get(f"{rn}::{m}")
@@ -902,15 +954,26 @@ class Lower:
                 v = st[1][1][1][0]
                 if v in env and v not in out:
                     out.append(v)
+            elif st[0] == "for":
+                # (a loop variable or inner `let` shadowing an outer name is not expected in this code)
+                for v in self.assigned(st[3], env):
+                    if v not in out:
+                        out.append(v)
+                if st[2][0] == "mutref" and st[2][1][0] == "path" and st[2][1][1][0] in env and st[2][1][1][0] not in out:
+                    out.append(st[2][1][1][0])
+            elif st[0] == "while":
+                for v in self.assigned(st[2], env):
+                    if v not in out:
+                        out.append(v)
         # variables shadowed by a `let` inside the branch before assignment are rare in this code; ignored
         return out
 
     def returns(self, stmts):
-        """True when every path through the statement list ends in `return`"""
+        """True when every path through the statement list ends in `return` (or `continue` inside a loop body)"""
         if not stmts:
             return False
         last = stmts[-1]
-        if last[0] == "return":
+        if last[0] in ("return", "continue"):
             return True
         if last[0] in ("semi", "tail") and last[1][0] == "if" and last[1][3] is not None:
             return self.returns(last[1][2]) and self.returns(last[1][3])
@@ -918,6 +981,91 @@ class Lower:
 
     def block(self, stmts, env, want=None):
         return self.seq(stmts, 0, env, want)
+
+    def state_of(self, mv, env):
+        names = [env[v][0] for v in mv]
+        val = names[0] if len(mv) == 1 else "(" + ", ".join(names) + ")"
+        tailst = ("tail", ("path", [mv[0]])) if len(mv) == 1 else ("tail", ("tuple", [("path", [v]) for v in mv]))
+        return val, tailst
+
+    def iter_source(self, it, env):
+        """(lean list expression, element type) of the thing a `for` iterates over"""
+        while it[0] == "paren":
+            it = it[1]
+        if it[0] == "bin" and it[1] == "..":
+            a, ta = self.ex(it[2], env, "N")
+            b, tb = self.ex(it[3], env, "N")
+            if ta != "N" or tb != "N":
+                raise Untranslatable("range over non-integers")
+            if a == "0":
+                return f"(List.range {b})", "N"
+            return f"(List.range' {a} ({b} - {a}))", "N"
+        s, t = self.ex(it, env)
+        if isinstance(t, tuple) and t[0] == "list":
+            return s, t[1]
+        raise Untranslatable(f"iteration over {t}")
+
+    def for_loop(self, st, stmts, i, env, want):
+        _, pat, it, body = st
+        # `for p in &mut xs { *p op= e; }`  ==  xs := xs.map (fun p => p op e)
+        if it[0] == "mutref" and it[1][0] == "path" and len(it[1][1]) == 1 and it[1][1][0] in env and pat[0] == "pid" \
+                and len(body) == 1 and body[0][0] == "assign" and body[0][1] == ("path", [pat[1]]):
+            xs = it[1][1][0]
+            nm, t = env[xs]
+            if not (isinstance(t, tuple) and t[0] == "list"):
+                raise Untranslatable("in-place update of " + str(t))
+            env_b = dict(env)
+            pv = self.bind_pat(pat, t[1], env_b)
+            a = body[0]
+            if a[2] == "=":
+                e, _ = self.ex(a[3], env_b, t[1] if t[1] in ("S", "N") else None)
+            else:
+                e, _ = self.binop(("bin", a[2][0], a[1], a[3]), env_b)
+            rest, rt = self.seq(stmts, i + 1, env, want)
+            return f"(let {nm} := {nm}.map (fun {pv} => {e}); {rest})", rt
+        mv = self.assigned(body, env)
+        if not mv:
+            raise Untranslatable("for loop without effect on locals")
+        src, et = self.iter_source(it, env)
+        val, tailst = self.state_of(mv, env)
+        env_b = dict(env)
+        pv = self.bind_pat(pat, et, env_b)
+        self.loop_state.append((mv, tailst[1]))
+        self.pushed = {}
+        try:
+            b, _ = self.block(body + [tailst], env_b)
+        finally:
+            self.loop_state.pop()
+        env2 = dict(env)
+        for v in mv:
+            if env2[v][1] == ("list", "?") and v in self.pushed:
+                env2[v] = (env2[v][0], ("list", self.pushed[v]))
+        rest, rt = self.seq(stmts, i + 1, env2, want)
+        return f"(let {val} := (List.foldl (fun {val} {pv} => {b}) {val} {src}); {rest})", rt
+
+    def while_loop(self, st, stmts, i, env, want):
+        _, c, body = st
+        fuel = self.cfg.get("fuel")
+        if not fuel:
+            raise Untranslatable("while loop without a fuel parameter in the spec")
+        mv = self.assigned(body, env)
+        if not mv:
+            raise Untranslatable("while loop without effect on locals")
+        val, tailst = self.state_of(mv, env)
+        self.loop_state.append((mv, tailst[1]))
+        self.pushed = {}
+        try:
+            # element types of accumulators that are still unknown do not matter for the condition
+            b, _ = self.block(body + [tailst], dict(env))
+        finally:
+            self.loop_state.pop()
+        env2 = dict(env)
+        for v in mv:
+            if env2[v][1] == ("list", "?") and v in self.pushed:
+                env2[v] = (env2[v][0], ("list", self.pushed[v]))
+        cnd = self.cond(c, env2)
+        rest, rt = self.seq(stmts, i + 1, env2, want)
+        return f"(let {val} := (whileFuel {fuel} (fun {val} => decide ({cnd})) (fun {val} => {b}) {val}); {rest})", rt
 
     def bind_pat(self, p, t, env):
         if p[0] == "pid":
@@ -944,7 +1092,17 @@ class Lower:
         if k == "return":
             if st[1] is None:
                 raise Untranslatable("bare return")
+            if self.loop_state:
+                raise Untranslatable("return from inside a loop")
             return self.ex(st[1], env, want)
+        if k == "continue":
+            if not self.loop_state:
+                raise Untranslatable("continue outside a loop")
+            return self.ex(self.loop_state[-1][1], env)
+        if k == "for":
+            return self.for_loop(st, stmts, i, env, want)
+        if k == "while":
+            return self.while_loop(st, stmts, i, env, want)
         if k == "let":
             s, t = self.ex(st[2], env)
             env2 = dict(env)
@@ -1007,6 +1165,7 @@ class Lower:
                 a, ta = self.ex(e[3][0], env)
                 env2 = dict(env)
                 env2[v] = (nm, ("list", ta))
+                self.pushed[v] = ta
                 rest, rt = self.seq(stmts, i + 1, env2, want)
                 return f"(let {nm} := {nm} ++ [{a}]; {rest})", rt
             raise Untranslatable("expression statement with side effect")
@@ -1133,6 +1292,8 @@ def translate_group(pid, group, report):
                     for q, tt in zip(pat[1], t[1]):
                         env[q[1]] = (lean_ident(q[1]), tt)
                         binders.append(f"({lean_ident(q[1])} : {lean_ty(tt)})")
+            if f.get("extra_binders"):
+                binders.append(f["extra_binders"])
             stmts = P(lex(body)).block()
             s, t = lw.block(stmts, env, rt if rt in ("S", "N") else None)
             out += f"/-- `{where}` -/\ndef {f['lean']} {' '.join(binders)} : {lean_ty(rt)} :=\n  {s}\n\n"
